@@ -1,6 +1,7 @@
 // c18gen: correspondence stream for C18 (vulns.IsAffected vs Scalibr.Vulns.isAffected).
 // Case grammar (see lean/Drivers/C18.lean):
-//   isaff <pkgEco> <pkgName> <pkgVersion> <nAffected> { <eco> <name> <versions|-> <nRanges> { <E|S|O> <events|-> } }
+//
+//	isaff <pkgEco> <pkgName> <pkgVersion> <nAffected> { <eco> <name> <versions|-> <nRanges> { <E|S|O> <events|-> } }
 package main
 
 import (
@@ -31,6 +32,39 @@ var ecoNames = map[int]string{0: "npm", 1: "Maven", 2: "PyPI", 3: "crates.io"}
 var pkgNames = map[int]map[int]string{0: {0: "p", 1: "q"}, 1: {0: "g:p", 1: "g:q"}, 2: {0: "p", 1: "q"}, 3: {0: "p", 1: "q"}}
 
 const maxRank = 13
+
+// alt[eco][rank] = another SPELLING of the same rank (compares equal under the ecosystem's order, different string):
+// found at start-up among the candidates below and verified with the comparator the implementation uses. A version
+// token v of a case line is rank + 100*s; s = 1 selects the alternative spelling. Ranges compare versions (rank
+// matters), the explicit `versions` list is matched by string (spelling matters).
+var alt = map[int]map[int]string{0: {}, 1: {}, 2: {}}
+var altCandidates = map[int]func(string) []string{
+	0: func(v string) []string { return []string{v + "+b1", "v" + v, "=" + v} },
+	1: func(v string) []string {
+		return []string{v + ".0", v + "-ga", v + ".0.0", strings.Replace(v, "-rc", "-cr", 1), strings.Replace(v, "-beta-", "-b", 1), strings.Replace(v, "-alpha-", "-a", 1)}
+	},
+	2: func(v string) []string {
+		return []string{v + ".0", strings.Replace(v, "rc", "c", 1), strings.Replace(v, "a1", "alpha1", 1), strings.Replace(v, "b1", "beta1", 1), strings.Replace(v, ".post1", "-1", 1), strings.Replace(v, ".dev1", ".0.dev1", 1), "v" + v}
+	},
+}
+
+func spell(eco, id int) string {
+	tab := versions[eco%3]
+	if id >= 100 {
+		if a, ok := alt[eco%3][id%100]; ok {
+			return a
+		}
+	}
+	return tab[id%100]
+}
+
+// pick turns a rank into a version token, sometimes choosing the alternative spelling
+func pick(r *rand.Rand, eco, rank int) int {
+	if _, ok := alt[eco%3][rank]; ok && r.Intn(4) == 0 {
+		return rank + 100
+	}
+	return rank
+}
 
 type ev struct {
 	k byte // i f l
@@ -117,28 +151,27 @@ func run(c tcase) string {
 		// the version strings of an affected entry are those of ITS ecosystem (falling back to npm's)
 		v := &osvschema.Vulnerability{ID: "X"}
 		for _, a := range c.affs {
-			tab := versions[a.eco%3]
 			oa := osvschema.Affected{Package: osvschema.Package{Ecosystem: ecoNames[a.eco], Name: pkgNames[a.eco][a.name]}}
 			for _, x := range a.vers {
-				oa.Versions = append(oa.Versions, tab[x])
+				oa.Versions = append(oa.Versions, spell(a.eco, x))
 			}
 			for _, r := range a.ranges {
 				or := osvschema.Range{Type: map[byte]osvschema.RangeType{'E': "ECOSYSTEM", 'S': "SEMVER", 'O': "GIT"}[r.typ]}
 				for _, e := range r.evs {
 					switch e.k {
 					case 'i':
-						or.Events = append(or.Events, osvschema.Event{Introduced: tab[e.v]})
+						or.Events = append(or.Events, osvschema.Event{Introduced: spell(a.eco, e.v)})
 					case 'f':
-						or.Events = append(or.Events, osvschema.Event{Fixed: tab[e.v]})
+						or.Events = append(or.Events, osvschema.Event{Fixed: spell(a.eco, e.v)})
 					case 'l':
-						or.Events = append(or.Events, osvschema.Event{LastAffected: tab[e.v]})
+						or.Events = append(or.Events, osvschema.Event{LastAffected: spell(a.eco, e.v)})
 					}
 				}
 				oa.Ranges = append(oa.Ranges, or)
 			}
 			v.Affected = append(v.Affected, oa)
 		}
-		got := guidedremediation.VerifIsAffected(v, systems[c.peco], pkgNames[c.peco][c.pname], versions[c.peco%3][c.pver])
+		got := guidedremediation.VerifIsAffected(v, systems[c.peco], pkgNames[c.peco][c.pname], spell(c.peco, c.pver))
 		return "aff=" + hx.B(got)
 	})
 }
@@ -187,6 +220,7 @@ func randEvents(r *rand.Rand) []ev {
 
 func randCase(r *rand.Rand) tcase {
 	c := tcase{peco: r.Intn(3), pname: r.Intn(2), pver: 1 + r.Intn(maxRank)}
+	c.pver = pick(r, c.peco, c.pver)
 	if r.Intn(25) == 0 {
 		c.peco = 3
 	}
@@ -199,7 +233,11 @@ func randCase(r *rand.Rand) tcase {
 			a.name = r.Intn(2)
 		}
 		for k := r.Intn(3); k > 0 && r.Intn(3) == 0; k-- {
-			a.vers = append(a.vers, 1+r.Intn(maxRank))
+			x := 1 + r.Intn(maxRank)
+			if r.Intn(2) == 0 {
+				x = c.pver % 100 // the queried rank, possibly in the OTHER spelling: listed explicitly only if the strings match
+			}
+			a.vers = append(a.vers, pick(r, a.eco, x))
 		}
 		for k := 1 + r.Intn(2); k > 0; k-- {
 			rg := rng{typ: "EEESSO"[r.Intn(6)]}
@@ -207,6 +245,11 @@ func randCase(r *rand.Rand) tcase {
 				rg.evs = wfEvents(r, r.Intn(6))
 			} else {
 				rg.evs = randEvents(r)
+			}
+			for i := range rg.evs {
+				if rg.evs[i].v != 0 {
+					rg.evs[i].v = pick(r, a.eco, rg.evs[i].v)
+				}
 			}
 			a.ranges = append(a.ranges, rg)
 		}
@@ -275,6 +318,29 @@ func main() {
 			fmt.Fprintf(os.Stderr, "rank 1 of ecosystem %d is not below the literal 0\n", eco)
 			os.Exit(2)
 		}
+	}
+	nalt := 0
+	for eco, tab := range versions {
+		sv := systems[eco].Semver()
+		for rank := 1; rank < len(tab); rank++ {
+			for _, cand := range altCandidates[eco](tab[rank]) {
+				if cand == tab[rank] {
+					continue
+				}
+				if _, err := sv.Parse(cand); err != nil {
+					continue
+				}
+				if sv.Compare(cand, tab[rank]) == 0 && sv.Compare(tab[rank], cand) == 0 {
+					alt[eco][rank] = cand
+					nalt++
+					break
+				}
+			}
+		}
+	}
+	if nalt < 12 {
+		fmt.Fprintf(os.Stderr, "only %d alternative spellings found: %v\n", nalt, alt)
+		os.Exit(2)
 	}
 	if o.Replay != "" {
 		for _, l := range hx.ReplayLines(o.Replay) {
